@@ -7,7 +7,7 @@ package arp
 // C13 / C11: ARP-cache stage. A failed request passes through unchanged (no lookup, same cause); otherwise the
 // MAC is looked up for THIS request's destination address: found -> DstMAC set, no error; not found -> error.
 //@ func (*cacheReqGenerator).GenerateRequests$1
-//@   props C13 C11 C07 C05 C01 C12
+//@   props C13 C11 C07 C05 C01 C12 C02 C17
 //@   observe getMAC
 //@   loop 0 row closed:  [recv requests as (rq, false) ; close result] -> exit
 //@   loop 0 row errpass: [recv requests as (rq, true) ; send result rq] when pre(rq.Err) != nil && rq.Err == pre(rq.Err) && rq.DstMAC == pre(rq.DstMAC) && rq.DstIP == pre(rq.DstIP) -> continue
@@ -36,17 +36,17 @@ package arp
 // C11: ARP cache. Put and Get use the same key (the address's String form) and hold the lock around the map
 // access; Get changes nothing; the MAC chosen for a request is the cache entry of THAT address, else the gateway's.
 //@ func (*Cache).Put
-//@   props C11 C05 C01 C07 C13 C12
+//@   props C11 C05 C01 C07 C13 C12 C02 C17
 //@   observe Lock, Unlock, String
 //@   entry row put: [call Lock(_) ; call String(ip) as (k) ; call Unlock(_)]
 //@                    when mapin(c.cache, k) && mapget(c.cache, k) == mac && (forall j int :: j != k ==> mapin(c.cache, j) == pre(mapin(c.cache, j)) && mapget(c.cache, j) == pre(mapget(c.cache, j))) -> exit
 //@ func (*Cache).Get
-//@   props C11 C05 C01 C07 C13 C12
+//@   props C11 C05 C01 C07 C13 C12 C02 C17
 //@   observe RLock, RUnlock, String
 //@   modifies nothing
 //@   entry row get: [call RLock(_) ; call String(ip) as (k) ; call RUnlock(_)] when (mapin(c.cache, k) ==> ret == mapget(c.cache, k)) && (!mapin(c.cache, k) ==> ret == nil) -> exit
 //@ func NewCacheRequestGenerator$1
-//@   props C11 C05 C01 C07 C13 C12
+//@   props C11 C05 C01 C07 C13 C12 C02 C17
 //@   observe Get
 //@   entry row cached:  [call Get(cache, ip) as (mac)] when mac != nil && ret == mac -> exit
 //@   entry row gateway: [call Get(cache, ip) as (mac)] when mac == nil && ret == gatewayMAC -> exit
@@ -61,7 +61,7 @@ package arp
 //@   modifies v.IP, v.MAC, v.Vendor
 //@   ensures ret == nil ==> v.IP == ite(ahasip(data), aip(data), old(v.IP)) && v.MAC == ite(ahasmac(data), amac(data), old(v.MAC))
 //@ func FillCache
-//@   props C11 C05 C01 C07 C13 C12
+//@   props C11 C05 C01 C07 C13 C12 C02 C17
 //@   observe (*bufio.Scanner).Scan, (*bufio.Scanner).Bytes, (*bufio.Scanner).Err, UnmarshalJSON, net.ParseIP, net.ParseMAC, Put
 //@   loop 0 row eof:     [call Scan(_) as (more) ; call Err(_) as (e)] when !more && ret == e -> exit
 //@   loop 0 row badjson: [call Scan(_) as (more) ; call Bytes(_) as (b) ; call UnmarshalJSON(_, b) as (je)] when more && je != nil && ret == je -> exit
@@ -97,7 +97,7 @@ package arp
 // C05: ARP request frames: broadcast Ethernet frame from the request's source MAC; who-has for the request's
 // destination address (4-byte form), sender = the request's source MAC / address, 6/4-byte address sizes
 //@ func (*PacketFiller).Fill
-//@   props C05 C11 C17 C01 C19 C02 C07
+//@   props C05 C11 C17 C01 C19 C02 C07 C13
 //@   observe To4, gopacket.SerializeLayers
 //@   entry row request: [call To4(r.DstIP) as (d4) ; call gopacket.SerializeLayers(packet, bind_opt, bind_ls) as (se)]
 //@                         when ret == se && len(ls) == 2 && isptr(ls[0], layers.Ethernet) && isptr(ls[1], layers.ARP)
@@ -121,21 +121,21 @@ package arp
 // outer function of the ARP-cache stage: the wrapped generator is asked with the caller's context and range; its
 // error is passed on with no stream; otherwise one worker bound to exactly that stream and the returned channel
 //@ func (*cacheReqGenerator).GenerateRequests
-//@   props C13 C11 C07 C12 C05 C01
+//@   props C13 C11 C07 C12 C05 C01 C02 C17
 //@   observe GenerateRequests
 //@   entry row generr: [call GenerateRequests(g.reqgen, ctx, r) as (rs, e)] when e != nil && ret0 == nil && ret1 == e -> exit
 //@   entry row start:  [call GenerateRequests(g.reqgen, ctx, r) as (rs, e) ; go (*cacheReqGenerator).GenerateRequests$1{result: bind_res, requests: bind_rq, g: bind_g2}]
 //@                        when e == nil && ret0 == res && ret1 == nil && rq == rs && g2 == g -> exit
 //@ func NewCacheRequestGenerator
-//@   props C11 C13 C05 C01 C07 C12
+//@   props C11 C13 C05 C01 C07 C12 C02 C17
 //@   ensures isptr(ret, cacheReqGenerator) && asptr(ret, cacheReqGenerator).reqgen == reqgen
 //@   ensures closureof(asptr(ret, cacheReqGenerator).getMAC, "NewCacheRequestGenerator$1")
 //@   ensures capt(asptr(ret, cacheReqGenerator).getMAC, "cache") == cache && capt(asptr(ret, cacheReqGenerator).getMAC, "gatewayMAC") == gatewayMAC
 //@ func NewCache
-//@   props C11 C05 C01 C07 C13 C12
+//@   props C11 C05 C01 C07 C13 C12 C02 C17
 //@   ensures ret != nil && fresh(ret) && (forall k int :: !mapin(ret.cache, k))
 //@ func (*Cache).Delete
-//@   props C11 C05 C01 C07 C13 C12
+//@   props C11 C05 C01 C07 C13 C12 C02 C17
 //@   observe Lock, Unlock, String
 //@   entry row del: [call Lock(_) ; call String(ip) as (k) ; call Unlock(_)]
 //@                    when !mapin(c.cache, k) && (forall j int :: j != k ==> mapin(c.cache, j) == pre(mapin(c.cache, j)) && mapget(c.cache, j) == pre(mapget(c.cache, j))) -> exit
@@ -146,7 +146,7 @@ package arp
 
 // the scan method's packet stream is its packet source's, its results are the result channel's
 //@ func (*ScanMethod).Packets
-//@   props C01 C07 C05 C11 C13 C16 C19 C12
+//@   props C01 C07 C05 C11 C13 C16 C19 C12 C02 C17
 //@   observe Packets
 //@   entry row forward: [call Packets(recv.PacketSource, _, _) as (c)] when ret == c -> exit
 //@ func (*ScanMethod).Results
